@@ -361,6 +361,11 @@ func (ex *Exec) runBlocks(fr *Frame, b *ssa.BasicBlock) Value {
 				fr.loopCount = map[*ssa.BasicBlock]int{}
 			}
 			fr.loopCount[next]++
+			for h := range fr.loopCount { // a new iteration of an outer loop starts its inner loops afresh
+				if h.Index > next.Index {
+					delete(fr.loopCount, h)
+				}
+			}
 			if fr.loopCount[next] > ex.unwind && ex.inInit == 0 {
 				panic(engineErr(fmt.Sprintf("unwinding bound %d exceeded at %s", ex.unwind, ex.prog.Fset.Position(firstPos(next)))))
 			}
